@@ -8,7 +8,7 @@ NB = {'pkg/northbound/gnmi/v2/zz_verif_nbenv.go': 'nb/zz_verif_nbenv.go',
 def run(ctx):
     H = driver.Harness
     f = dict(NB); f['pkg/northbound/gnmi/v2/zz_verif_c12.go'] = 'c12/zz_verif_c12.go'
-    params = {'namelen': 2, 'vallen': 1, 'elems': 1} if ctx.tier == 'quick' else {'namelen': 3, 'vallen': 2, 'elems': 2}
+    params = {'namelen': 3, 'elems': 1} if ctx.tier == 'quick' else {'namelen': 4, 'elems': 2}
     hs = [H('VerifC12Set', 'pkg/northbound/gnmi/v2', f, unwind=12, opts={'params': params})]
     if ctx.only:
         hs = [h for h in hs if h.entry in ctx.only]
